@@ -31,7 +31,7 @@ mod tests {
             for _ in 0..40 {
                 let k = rng.below(12) as u8;
                 let v = (rng.below(200) as u8, rng.below(2) == 0);
-                match rng.below(9) {
+                match rng.below(10) {
                     0 | 1 => { if r.len() < 8 || r.contains_key(&k) { assert_eq!(r.insert(k, v), m.insert(k, v)); } }
                     2 => assert_eq!(r.swap_remove(&k), m.swap_remove(&k)),
                     3 => assert_eq!(r.get(&k), m.get(&k)),
@@ -46,6 +46,13 @@ mod tests {
                         let room = r.len() < 8;
                         match r.entry(k) { real_indexmap::map::Entry::Occupied(e) => { e.swap_remove(); } real_indexmap::map::Entry::Vacant(e) => { if room { e.insert(v); } } }
                         match m.entry(k) { model::map::Entry::Occupied(e) => { e.swap_remove(); } model::map::Entry::Vacant(e) => { if room { e.insert(v); } } }
+                    }
+                    8 => {
+                        // drain(a..b) with a <= b <= len: removed entries in order, the rest keeps its order
+                        let n = r.len(); let b = rng.below(n as u64 + 1) as usize; let a = rng.below(b as u64 + 1) as usize;
+                        let x: Vec<(u8, (u8, bool))> = r.drain(a..b).collect();
+                        let y: Vec<(u8, (u8, bool))> = m.drain(a..b).collect();
+                        assert_eq!(x, y);
                     }
                     _ => {
                         let a = rng.below(9) as usize; let b = rng.below(9) as usize;
